@@ -534,6 +534,23 @@ fn replica_strat(dom: u8) -> impl Strategy<Value = Replica> {
         .prop_map(|(live, tombs)| Replica { live, tombs })
 }
 
+/// C01 for the tombstone backends that have no `PartialEq` (Roaring, FST): merge order,
+/// grouping and the delta's representation/iteration order must not matter, observed through
+/// the revealed state (same body as C05, smaller budget).
+pub fn c01_backends(ctx: &mut Ctx, w: &Work) {
+    let strat = (
+        prop::collection::vec(replica_strat(5), 2..5),
+        prop_oneof![Just(255u8), 0u8..5],
+        any::<bool>(),
+    )
+        .prop_map(|(replicas, delta_kind, overlap_delta)| TCase {
+            replicas,
+            delta_kind,
+            overlap_delta,
+        });
+    ctx.check("tombstone-backends-order-independence", (w.random_cases / 8).max(200), strat, body);
+}
+
 pub fn c05(ctx: &mut Ctx, w: &Work) {
     // bounded-exhaustive: items {0,1}, per item state ∈ {absent, live(v=1), live(v=2), tombstoned},
     // 2 and 3 replicas, every order (all permutations inside the body)
